@@ -221,7 +221,7 @@ def install(eng):
         eng_.trusted.add("numpy.linalg.cond(T_k): an uninterpreted function of the bin (>= 1)")
         return c
 
-    def la_pinv(eng_, st, Tk):
+    def la_pinv(eng_, st, Tk, **kw):
         Tk = eng_.deref(st, Tk)
         eng_.trusted.add("numpy.linalg.pinv(T_k): uninterpreted (ill-conditioned / singular bins carry no claim)")
         return eng_.alloc(eng_.cur_state, eng_.fresh_array("pinv", Tk.shape, "cx"))
@@ -351,6 +351,25 @@ def bounded_miso(tier, seed):
             base = num(ins, out, fs, **kw)[1]
             if np.max(np.abs(num(perm, out, fs, **kw)[1][ok] - base[ok]) / np.sqrt(sc[ok])) > 1e-6 or np.max(np.abs(num(mixed, out, fs, **kw)[1][ok] - base[ok]) / np.sqrt(sc[ok])) > 1e-5:
                 fails.append({"label": "C15.invariance", "input": {"q": q}, "detail": "residual changes under permutation / invertible re-mixing of the inputs"})
+    # inputs in very different units: an invertible diagonal re-mix must not change the residual, the two solvers must
+    # agree, and an exact static combination must still leave nothing
+    for s_ in (1e-3, 1e-4, 1e4):
+        n += 1
+        x1 = rng.normal(size=N)
+        x2 = 0.3 * x1 + rng.normal(size=N)
+        yy = 0.7 * x1 - 0.4 * x2 + 0.2 * rng.normal(size=N)
+        ref_, _ = direct([x1, x2], yy)
+        okb = np.asarray(ref_.navg) > 2
+        b0 = num([x1, x2], yy, fs, **kw)[1]
+        b1 = num([x1, s_ * x2], yy, fs, **kw)[1]
+        a1 = ana([x1, s_ * x2], yy, fs, **kw)[1]
+        scb = np.sqrt(ref_.Gxx)
+        if np.max(np.abs(b1[okb] - b0[okb]) / scb[okb]) > 1e-5 or np.max(np.abs(a1[okb] - b1[okb]) / scb[okb]) > 1e-5:
+            fails.append({"label": "C15.invariance", "input": {"input_scale": s_}, "detail": "residual changes when one input is expressed in other units (or the two solvers disagree)"})
+        ex = num([x1, s_ * x2], 2 * x1 + 3 * x2, fs, **kw)[1]
+        ref2 = compute_spectrum(2 * x1 + 3 * x2, fs, **kw)
+        if np.max(ex[okb] ** 2 / ref2.Gxx[okb]) > 1e-6:
+            fails.append({"label": "C15.exact_combination", "input": {"input_scale": s_}, "detail": "residual not zero for an exact static combination of inputs in different units"})
     # q = 1 with a delayed coupling: all three agree with sqrt(Gyy(1-coh))
     x = rng.normal(size=N)
     y = 0.8 * np.roll(x, 2) + 0.5 * rng.normal(size=N)
